@@ -3,7 +3,7 @@
 // EQ, NEQ, LT.., FORALL, EXISTS clauses), type_t::is_guard/is_invariant/is_constraint lattice, RateDecomposer.
 // Symbolic: the formula tree (root connective, child connectives, leaves), its placement (guard / invariant).
 // Oracle: convex(f), written from the property statement; never consults the implementation.
-#include "common.h"
+#include "xmlmodel.h"
 
 // ---- formula trees
 enum Op { LEAF, AND_, OR_, NOT_, IMPLY_, XOR_, EQ_, NEQ_, FORALL_, EXISTS_ };
@@ -128,14 +128,21 @@ extern "C" void harness_convex_d2_full()  /* vf: tier=thorough bounds=all_formul
     run(2, true, 3);
 }
 
-// atomic clock comparisons that are not convex themselves: an inequality between clocks (or a clock / clock difference and an integer) is the
-// disjunction of < and >; wherever it stands, alone or under the connectives that preserve convexity, the model must be rejected
-extern "C" void harness_nonconvex_atoms()  /* vf: tier=quick bounds=8_inequality_atoms(clock!=clock,clock!=int,difference!=int,either_order,int_variable)_x_7_convexity-preserving_contexts_x_guard/invariant reach=end */
+// atomic clock comparisons of every spelling against every kind of context:
+//  - an inequality between clocks (or a clock / clock difference and an integer) is the disjunction of < and >: rejected wherever it stands;
+//  - a convex atom (bound, difference bound, equality between clocks or with an integer) is rejected under every connective that does not
+//    preserve convexity, and accepted (as a guard) under those that do.
+extern "C" void harness_atoms()  /* vf: tier=quick bounds=8_inequality_atoms+8_convex_clock_atoms(bounds,difference_bounds,clock==clock,clock==int,either_order)_x_7_convexity-preserving_and_8_convexity-breaking_contexts_x_guard/invariant_x_3_input_routes(textual,XML,XML_with_a_further_label_on_the_location) reach=end */
 {
-    static const char* ATOMS[] = {"x != y", "y != x", "x != 3", "3 != x", "x - y != 2", "2 != x - y", "x != i", "x - y != i"};
+    static const char* ATOMS[] = {"x != y", "y != x", "x != 3", "3 != x", "x - y != 2", "2 != x - y", "x != i", "x - y != i",
+                                  "x == y", "y == x", "x == 3", "3 == x", "x - y == 2", "x < 5", "x - y < 3", "2 <= x - y"};
     Model m;
-    int atom = vf_pick("!atom", 8), ctx = vf_pick("!context", 7), place = vf_pick("!place", 2);
+    int atom = vf_pick("!atom", 16), ctx = vf_pick("!context", 15), place = vf_pick("!place", 2);
+    // the way the formula reaches the type checker: textual format; XML; XML with a further label (a rate) after the invariant of the same location
+    int format = vf_pick("!format", 3);
+    bool nonconvex = atom < 8, equality = atom >= 8 && atom <= 12;
     std::string a = std::string("(") + ATOMS[atom] + ")", text;
+    bool preserving = ctx < 7;
     switch (ctx) {
     case 0: text = a; break;
     case 1: text = a + " && (i < 1)"; break;
@@ -143,15 +150,41 @@ extern "C" void harness_nonconvex_atoms()  /* vf: tier=quick bounds=8_inequality
     case 3: text = a + " && (x < 5)"; break;
     case 4: text = "(forall (k : int[0,1]) " + a + ")"; break;
     case 5: text = "b || " + a; break;
-    default: text = "(x < 5) && (" + a + " && (y < 3))"; break;
+    case 6: text = "(x < 5) && (" + a + " && (y < 3))"; break;
+    // contexts that do not preserve convexity
+    case 7: text = a + " || (y < 3)"; break;
+    case 8: text = "!" + a; break;
+    case 9: text = a + " imply b"; break;
+    case 10: text = "(exists (k : int[0,1]) (" + a + " && i == k))"; break;
+    case 11: text = a + " != b"; break;
+    case 12: text = "b == " + a; break;
+    case 13: text = a + " xor b"; break;
+    default: text = "(x < 5) && (" + a + " || " + a + ")"; break;
     }
     std::string xta = "clock x, y; int i; bool b;\nprocess P() {\n state A";
     if (place == 1) xta += " { " + text + " }";
     xta += ", B;\n init A;\n trans A -> B {";
     if (place == 0) xta += " guard " + text + ";";
     xta += " };\n}\nsystem P;\n";
-    bool accepted = m.load(xta);
+    bool accepted;
+    if (format == 0) accepted = m.load(xta);
+    else {
+        MModel mm; mm.gdecl = "clock x, y; int i; bool b;"; mm.system = "system P;";
+        MTemplate t; t.name = "P"; t.locs = {MLoc{"id0", "A"}, MLoc{"id1", "B"}};
+        if (place == 1) t.locs[0].inv = text;
+        if (format == 2) t.locs[0].rate = "2";
+        MEdge e; e.src = 0; e.dst = 1; if (place == 0) e.guard = text;
+        t.edges = {e}; mm.templs = {t};
+        XmlDoc d = render_xml(mm);
+        Document doc; bool threw = false;
+        try { parse_xml(d, &doc); } catch (std::exception& ex) { threw = true; vf_note(ex.what()); }
+        accepted = !threw && !doc.has_errors();
+        if (!accepted) note_errors(doc);
+    }
     vf_note(text.c_str()); vf_notei("accepted", accepted);
-    vf_assert(!accepted, "nonconvex-atom-rejected");
+    if (nonconvex) vf_assert(!accepted, "nonconvex-atom-rejected");
+    else if (!preserving) vf_assert(!accepted, "clock-atom-under-a-non-convex-connective-rejected");
+    else if (place == 0 && ctx != 5) vf_assert(accepted, "convex-atom-in-a-convexity-preserving-guard-accepted");
+    (void)equality;
     vf_reach("end");
 }
